@@ -6,9 +6,9 @@ def run(ctx):
     fns = g.run_pyvc(ctx, "C06")
     res = ctx.cvc(["II", "IO", "OO"] if ctx.tier == "quick" else ["II", "IO", "OO", "LF", "QQ", "OI"], ["F-STATE"], functions=["bucket_getstate", "BTree_getstate"])
     res2 = ctx.cvc(["OO"], ["F-STATE"], functions=["_bucket_setstate"])
-    replay.replay_fstate(ctx, res2)
     from lib import replay
     replay.replay_fstate(ctx, res)
+    replay.replay_fstate(ctx, res2)
     ctx.standin("pickle_rt", families=tuple("OO,II,LF,fs".split(",")))
     return "other", (
         "Engine P: the state functions of the pure-Python implementation are under contract (%d targets: %s): "
